@@ -68,7 +68,11 @@ OPS = (
                         "flip_wavefunction", "flip_amplitudes")]
     + ["orquestra.quantum.circuits._itertools:" + m for m in ("_combine_measurements", "combine_measurement_counts", "combine_bitstrings", "expand_sample_sizes")]
     + ["orquestra.quantum.decompositions._decomposition:decompose_operations", "orquestra.quantum.decompositions._decomposition:decompose_operation",
-       "orquestra.quantum.evolution:time_evolution", "orquestra.quantum.evolution:time_evolution_for_term", "orquestra.quantum.estimation._estimation:evaluate_estimation_circuits"]
+       "orquestra.quantum.evolution:time_evolution", "orquestra.quantum.evolution:time_evolution_for_term", "orquestra.quantum.estimation._estimation:evaluate_estimation_circuits",
+       "orquestra.quantum.circuits._wavefunction_operations:MultiPhaseOperation.apply", "orquestra.quantum.circuits._wavefunction_operations:MultiPhaseOperation.bind",
+       "orquestra.quantum.runners.symbolic_simulator:SymbolicSimulator._get_wavefunction_from_native_circuit",
+       "orquestra.quantum.circuits.symbolic.translations:translate_expression", "orquestra.quantum.circuits.symbolic.translations:translate_function_call",
+       "orquestra.quantum.circuits.symbolic.sympy_expressions:expression_from_sympy"]
 )
 GHOST = {"PauliTerm": ("_circuit",), "PauliSum": ("_circuits", "_is_ising")}
 FROZEN = ["GateOperation", "MatrixFactoryGate", "ControlledGate", "Dagger", "Power", "Exponential", "CustomGateDefinition", "CustomGateMatrixFactory", "MultiPhaseOperation"]
@@ -132,6 +136,14 @@ def _samples():
     S["Circuit.free_symbols"] = lambda: (lambda c: c.free_symbols, [circ()])
     S["to_dict/from_dict"] = lambda: (lambda c: circuit_from_dict(to_dict(c)), [circ()])
     S["Gate.modifiers"] = lambda: (lambda g: (g.controlled(2), g.dagger, g.bind({th: 1.0}), g.replace_params((0.2,)), g.bind({th: 1.0}).power(2).matrix), [RX(th)])
+    def _sim_state(c, v):
+        from orquestra.quantum.circuits import MultiPhaseOperation
+        from orquestra.quantum.runners.symbolic_simulator import SymbolicSimulator
+        cc = Circuit([MultiPhaseOperation((0.1, 0.2, 0.3, 0.4)), X(0), MultiPhaseOperation((0.0, -0.5, 0.25, 1.0))], n_qubits=2)
+        return np.array(SymbolicSimulator().get_wavefunction(cc, v).amplitudes).round(12).tolist()
+    S["simulator(initial_state, phase ops first)"] = lambda: (_sim_state, [None, np.array([0.5, 0.5j, -0.5, 0.5], dtype=complex)])
+    S["MultiPhaseOperation.apply"] = lambda: (lambda op, v: np.array(op.apply(v)).round(12).tolist(),
+                                              [__import__("orquestra.quantum.circuits", fromlist=["x"]).MultiPhaseOperation((0.3, 1.1, -0.4, 2.0)), np.array([0.5, 0.5j, -0.5, 0.5], dtype=complex)])
     S["Op.lifted/apply"] = lambda: (lambda op, v: (np.array(op.lifted_matrix(3)).tolist(), np.array(op.apply(v)).tolist()), [CNOT(2, 0), np.arange(8, dtype=complex) / 12.0])
     a, b = PauliTerm("Z0*Z1", 0.5), PauliTerm("Z0*Z1", 0.25)
     S["PauliTerm.arith"] = lambda: (lambda x, y: (x + y, x - y, x * y, y * x, 2 * x, x / 2, x ** 2, x == y, hash(x), x.copy(), str(x)), [PauliTerm("Z0*Z1", 0.5), PauliTerm("X0*Z1", 0.25)])
